@@ -152,8 +152,16 @@ func (c GateConfig[R]) Override(other GateConfig[R]) GateConfig[R] {
 func (c *Controller[R]) LeadingState() (state *State) {
 	c.mu.RLock()
 	defer c.mu.RUnlock()
-	if len(c.regions) != 0 && len(c.regions[0].gates) != 0 {
-		state = c.regions[0].curr.state()
+	if len(c.regions) == 0 {
+		return
+	}
+	// The region's gates and current holder are guarded by the region lock, not by the
+	// controller lock (release and update only take the former).
+	r := c.regions[0]
+	r.RLock()
+	defer r.RUnlock()
+	if len(r.gates) != 0 {
+		state = r.curr.state()
 	}
 	return
 }
